@@ -397,8 +397,8 @@ def afm_prefix_is_invalid(text, cut):
     if depth > 0:
         return True
     body = prefix.rstrip()
-    if not body or body.endswith(";"):
-        return False
+    if not body or body.endswith(";") or body.endswith("}"):
+        return False      # a complete statement, or a complete brackets block
     last_line = body.split("\n")[-1].strip()
     if last_line in ("%Relationships", "%Attributes", "%Constraints"):
         return False
